@@ -169,6 +169,17 @@ ADD7 = {
  "C09": ("path census of repeated conversions of one script value", "No argument of a String built-in is converted twice, also across two loops over the argument list."),
  "C11": ("order of the replacer call and the unboxing of wrapper objects", "The stringify walker unboxes Number / String / Boolean objects only after the replacer function has been called (Str steps 3-4)."),
 }
+ADD8 = {
+ "C03": ("exhaustive evaluation of the string-literal value function over a quotient of escapes; one line-terminator table, many readers", "The value of every escape (hex, unicode, octal with the B.1.2 bound, line continuation, identity) agrees with 7.8.4 on ~1600 literals; every scanner function that tests for a line terminator tests for all four."),
+ "C04": ("exhaustive evaluation of the string-literal value function; line-terminator set census", "Same two rules: literal values and the line-terminator set of 7.3 in every scanner function."),
+ "C05": ("guard-before-use in the `in` / `instanceof` arms", "The right operand is tested for Object and a TypeError raised otherwise, with no ToObject coercion."),
+ "C19": ("guard-before-use in the `in` / `instanceof` arms", "A non-object right operand of `in` / `instanceof` raises a TypeError."),
+ "C08": ("[[GetOwnProperty]] census in the Array.prototype algorithms", "Elements are tested with [[HasProperty]] and read with [[Get]], never looked up as own properties."),
+}
+for _pid, (_t, _d) in ADD8.items():
+    t0, d0, n0 = P[_pid]
+    P[_pid] = (t0 + "; " + _t, d0 + " Also: " + _d, n0)
+
 for _pid, (_t, _d) in ADD7.items():
     t0, d0, n0 = P[_pid]
     P[_pid] = (t0 + "; " + _t, d0 + " Also: " + _d, n0)
